@@ -85,7 +85,7 @@ def roundtrip_relation(objects: Objects, o: Any, tv: TV, locus: str = "$", ctx: 
             out.append(("changed", locus, ctx, f"array length {len(tv.items)} became {len(o)}"))
         else:
             for i, (x, y) in enumerate(zip(o, tv.items)):
-                out.extend(roundtrip_relation(objects, x, y, f"{locus}/[]", ctx, strict))
+                out.extend(roundtrip_relation(objects, x, y, f"{locus}|[]", ctx, strict))
         return out
     if isinstance(tv, Mp):
         if not isinstance(o, dict):
@@ -95,7 +95,7 @@ def roundtrip_relation(objects: Objects, o: Any, tv: TV, locus: str = "$", ctx: 
             out.append(("changed", locus, ctx, f"map keys {short(sorted(tv.items))} became {short(sorted(o))}"))
             return out
         for k, v in tv.items.items():
-            out.extend(roundtrip_relation(objects, o[k], v, f"{locus}/{{}}", ctx, strict))
+            out.extend(roundtrip_relation(objects, o[k], v, f"{locus}|{{}}", ctx, strict))
         return out
     if isinstance(tv, S):
         if not isinstance(o, dict):
@@ -216,7 +216,7 @@ class WellTyped:
             out: List[Finding] = []
             for i, x in enumerate(v):
                 js = j[i] if isinstance(j, list) and i < len(j) else _ABSENT
-                out.extend(self.check(x, t["element"], js, f"{locus}/[]", ctx))
+                out.extend(self.check(x, t["element"], js, f"{locus}|[]", ctx))
             return out
         if k == "map":
             if not isinstance(v, dict):
@@ -226,7 +226,7 @@ class WellTyped:
                 if not isinstance(kk, str):
                     out.append(("ill-typed", locus, ctx, f"map key {short(kk)}"))
                 js = j.get(kk, _ABSENT) if isinstance(j, dict) else _ABSENT
-                out.extend(self.check(x, t["value"], js, f"{locus}/{{}}", ctx))
+                out.extend(self.check(x, t["value"], js, f"{locus}|{{}}", ctx))
             return out
         if k == "tuple":
             if not isinstance(v, tuple) or len(v) != len(t["items"]):
@@ -234,7 +234,7 @@ class WellTyped:
             out = []
             for i, (x, it) in enumerate(zip(v, t["items"])):
                 js = j[i] if isinstance(j, list) and i < len(j) else _ABSENT
-                out.extend(self.check(x, it, js, f"{locus}/{i}", ctx))
+                out.extend(self.check(x, it, js, f"{locus}|{i}", ctx))
             return out
         if k == "or":
             # some alternative for which the input was valid (non-strict) and the object is well typed
@@ -244,7 +244,7 @@ class WellTyped:
                 if j is not _ABSENT and not self.m.valid(j, it, strict=False, python_custom=True):
                     continue
                 anyvalid = True
-                r = self.check(v, it, j, f"{locus}/{i}", f"{locus}#{i}")
+                r = self.check(v, it, j, f"{locus}|{i}", f"{locus}#{i}")
                 if not r:
                     return []
                 reasons.append(r[0])
